@@ -189,11 +189,13 @@ impl Fmt for PqFmt {
             Err(e) => return WOut::fail("try_new", e),
         };
         let mut out = WOut::ok();
+        let mut acked = 0;
         for (i, b) in self.wl.batches.iter().enumerate() {
             if let Err(e) = w.write(b) {
                 out = WOut::fail("write", e);
                 break;
             }
+            acked += b.num_rows();
             if self.flush_after.contains(&i) {
                 if let Err(e) = w.flush() {
                     out = WOut::fail("flush", e);
@@ -201,6 +203,7 @@ impl Fmt for PqFmt {
                 }
             }
         }
+        out.acked_rows = acked;
         if out.api_ok {
             match post {
                 Post::Drop => {
@@ -277,18 +280,22 @@ impl Fmt for PqAsyncFmt {
                 Ok(w) => w,
                 Err(e) => return WOut::fail("try_new", e),
             };
+            let mut acked = 0;
             for (i, b) in wl.batches.iter().enumerate() {
                 if let Err(e) = w.write(b).await {
                     // the caller stops writing at the first error; half of the time it still closes the file
                     let mut out = WOut::fail("write", e);
+                    out.acked_rows = acked;
                     if post == Post::IntoInner {
                         out.finish_ok_after_error = w.close().await.is_ok();
                     }
                     return out;
                 }
+                acked += b.num_rows();
                 if flush_after.contains(&i) {
                     if let Err(e) = w.flush().await {
                         let mut out = WOut::fail("flush", e);
+                        out.acked_rows = acked;
                         if post == Post::IntoInner {
                             out.finish_ok_after_error = w.close().await.is_ok();
                         }
